@@ -171,6 +171,49 @@ func I() {
 	var f2 func(Box[string]) Box[int]
 	_, _, _, _, _, _, _ = b1, b2, b3, p1, p2, f1, f2
 }
+
+// every attribute of type identity once more, INSIDE a type argument (directly and
+// below a slice, map, pointer or function constructor)
+type E struct{ x int }
+
+func J() {
+	var g1 Box[struct{ E }]
+	var g2 Box[struct{ E E }]
+	var g3 Box[struct{ *E }]
+	var g4 Box[struct{ E *E }]
+	var g5 Box[struct{ A int }]
+	var g6 Box[struct{ B int }]
+	var g7 Box[struct{ A int ` + "`t`" + ` }]
+	var g8 Box[func(...int)]
+	var g9 Box[func([]int)]
+	var g10 Box[chan<- int]
+	var g11 Box[<-chan int]
+	var g12 Box[chan int]
+	var g13 Box[[]struct{ E }]
+	var g14 Box[[]struct{ E E }]
+	var g15 Box[interface{ M() }]
+	var g16 Box[interface{ N() }]
+	var g17 Box[func(int) (int, error)]
+	var g18 Box[func(int) int]
+	var g19 Box[[3]int]
+	var g20 Box[[4]int]
+	var g21 Box[map[string]struct{ E }]
+	var g22 Box[map[string]struct{ E E }]
+	var g23 Pair[int, struct{ E }]
+	var g24 Pair[int, struct{ E E }]
+	var g25 Box[func(a struct{ E })]
+	var g26 Box[func(a struct{ E E })]
+	var g27 Box[*struct{ E }]
+	var g28 Box[*struct{ E E }]
+	var g29 Box[struct{ A, B int }]
+	var g30 Box[struct{ B, A int }]
+	var g31 Box[func(a, b int)]
+	var g32 Box[func(int, int)]
+	_, _, _, _, _, _, _, _ = g1, g2, g3, g4, g5, g6, g7, g8
+	_, _, _, _, _, _, _, _ = g9, g10, g11, g12, g13, g14, g15, g16
+	_, _, _, _, _, _, _, _ = g17, g18, g19, g20, g21, g22, g23, g24
+	_, _, _, _, _, _, _, _ = g25, g26, g27, g28, g29, g30, g31, g32
+}
 `
 		fset := token.NewFileSet()
 		f, err := parser.ParseFile(fset, "demo.go", src, 0)
